@@ -126,7 +126,9 @@ def build(case, with_slicers=True):
       elif s['kind'] == 'fan':
         t = t.add_slice(s['features'][0], slice_name=s['name'], slice_fn=fan, **rkw)
       elif s['kind'] == 'within':
-        t = t.add_slice({s['features'][0]: tuple(s['allowed'])}, slice_name=s['name'], **rkw)
+        form = s.get('form', 'tuple')    # the value set as a tuple, a list, or (one value) the bare value itself
+        allowed = s['allowed'][0] if form == 'bare' else (list(s['allowed']) if form == 'list' else tuple(s['allowed']))
+        t = t.add_slice({s['features'][0]: allowed}, slice_name=s['name'], **rkw)
       elif s['kind'] == 'mask':
         kw = {}
         if s['replace'] is not None:
@@ -332,7 +334,8 @@ def strat(tier):
   def s(draw):
     family = draw(st.sampled_from(['rows', 'rows', 'masks']))
     nb = draw(st.integers(0, maxb))
-    cats1 = ['a', 'b', 'c', 'd'][:draw(st.integers(2, 4))]
+    # feature values that are substrings / prefixes of one another (incl. the empty string) and plain ones
+    cats1 = draw(st.sampled_from([['a', 'b', 'c', 'd'], ['ab', 'a', '', 'b'], ['zz', 'z', 'c', '']]))[:draw(st.integers(2, 4))]
     batches = []
     for bi in range(nb):
       n = draw(st.integers(1, maxn))
@@ -382,8 +385,9 @@ def strat(tier):
         elif k == 'fan':
           slicers.append({'kind': 'fan', 'features': ['v'], 'name': 'fan', 'replace': rep})
         else:
-          slicers.append({'kind': 'within', 'features': ['f1'], 'name': 'within', 'replace': rep,
-                          'allowed': draw(st.lists(st.sampled_from(['a', 'b', 'c', 'zz']), min_size=1, max_size=3, unique=True))})
+          allowed = draw(st.lists(st.sampled_from(['a', 'b', 'c', 'zz', 'ab']), min_size=1, max_size=3, unique=True))
+          slicers.append({'kind': 'within', 'features': ['f1'], 'name': 'within', 'replace': rep, 'allowed': allowed,
+                          'form': draw(st.sampled_from(['tuple', 'list'] + (['bare', 'bare'] if len(allowed) == 1 else [])))})
       if any(sl.get('replace') is not None for sl in slicers):
         for a in aggs:
           if a['kind'] == 'counter':
